@@ -1,5 +1,6 @@
 """C08 wire fidelity and auth - see DESIGN.md section 4 (C08)."""
 import ast
+import os
 import importlib
 
 from .common import Ctx, Finding, Result, need, term, P, TRUSTED_LOGGING
@@ -137,6 +138,32 @@ def _int64_test(ctx, fi, conds):
     return lo is not None and hi is not None and lo >= -2 ** 63 and hi <= 2 ** 63 - 1
 
 
+
+def _not_as_held(e):
+    """None when expression e (origin-expanded) passes values on unchanged; else what it does to them"""
+    for n in ast.walk(e):
+        if isinstance(n, (ast.BinOp, ast.UnaryOp, ast.BoolOp, ast.Compare, ast.JoinedStr)):
+            return "computes `%s`" % norm(n)[:50]
+        if isinstance(n, ast.Subscript) and isinstance(n.ctx, ast.Load):
+            if norm(n.value).startswith(("deep.push.", "deep.grpc.")) and norm(n.value).count(".") == 2:
+                continue        # a module-level table of the converters (enum names)
+            return "takes a part `%s`" % norm(n)[:50]
+        if isinstance(n, ast.Call):
+            f = norm(n.func)
+            if f.startswith("deepproto.") or f.startswith("deep.grpc.") or f.startswith("deep.push.") or f in ("list", "dict", "tuple", "str", "bool"):
+                continue
+            if isinstance(n.func, ast.Name) and (f.startswith("__convert") or f.startswith("convert_") or f.startswith("_convert")):
+                continue        # a converter of the same module named without its module (inside a comprehension)
+            if isinstance(n.func, ast.Attribute) and n.func.attr in ("items", "values", "keys", "Value", "copy") and len(n.args) <= 1:
+                continue
+            if isinstance(n.func, ast.Attribute) and n.func.attr == "to_bytes":
+                a_ = [norm(x) for x in n.args] + ["%s=%s" % (k.arg, norm(k.value)) for k in n.keywords]
+                if a_ in (["16", "'big'"], ["16", "byteorder='big'"], ["length=16", "byteorder='big'"]):
+                    continue
+                return "encodes the id as `%s` (the service expects the 16 bytes of the id, leading zero bytes included)" % norm(n)[-50:]
+            return "passes it through `%s`" % f[:50]
+    return None
+
 def _inline_locals(t, fi, e, depth=0):
     """e with every local that is assigned exactly once (a plain `name = <expr>`) replaced by that expression: a comprehension
     or an alias given a name first reads like the expression written in place"""
@@ -257,10 +284,31 @@ def run(ctx: Ctx, tier: str) -> Result:
                         res.fail(Finding("C08.SCHEMA", fi.qname, v, fi.loc(v), "%s.%s is converted with a filter: some elements never reach the service" % (mname, k)))
                     else:
                         res.ok("C08.SCHEMA", {"message": mname, "field": k, "from": "%s.%s" % (src, reads[0])})
+                    # ... and as the snapshot holds it: the value sent is the attribute itself (handed to a converter / message of
+                    # the schema, element by element), not something computed from it - no arithmetic, slice, text method or
+                    # re-encoding in between; the one fixed-width encoding is the 16-byte big-endian snapshot id
+                    if fi.module.name == PUSH:
+                        for alt in ctx.expand.expand_nodes(v, fi):
+                            bad_ = _not_as_held(alt)
+                            if bad_ is not None:
+                                res.fail(Finding("C08.SCHEMA", fi.qname, v, fi.loc(v), "%s.%s is not sent as the snapshot holds it: `%s` (%s)" % (mname, k, norm(alt)[:80], bad_)))
+                                break
+                        else:
+                            res.ok("C08.SCHEMA", {"message": mname, "field": k, "sent as held": True})
                 else:
                     res.fail(Finding("C08.SCHEMA", fi.qname, "%s=%s" % (k, norm(v)), fi.loc(v),
                                      "%s.%s is fed from %s of the source object, expected its `%s`" % (mname, k, reads or "nothing", "/".join(want))))
     res.floor("protobuf message constructions", nctor, 14)
+    # every message is built from the snapshot at hand: the converters keep nothing between snapshots (a converted
+    # tracepoint remembered under its id is sent again after the tracepoint was redefined under the same id)
+    from .common import process_wide_writes
+    convs_ = [f_ for f_ in p.functions.values() if f_.module.name in (PUSH, GRPC) and f_.cls is None]
+    pw_ = process_wide_writes(ctx, convs_)
+    for f_, n_, what_ in pw_[:3]:
+        res.fail(Finding("C08.SCHEMA", f_.qname, n_, f_.loc(n_), "`%s` keeps converted data in %s between snapshots: a later snapshot is sent with what an earlier one held "
+                         "(a tracepoint redefined under the same id goes out with its old definition)" % (norm(n_)[:60], what_)))
+    if not pw_:
+        res.ok("C08.SCHEMA", {"converters keep nothing between snapshots (no module-level / class-level container written)": len(convs_)})
     # every public property of the model is consumed by its converter
     model = {"EventSnapshot": "convert_snapshot", "StackFrame": "__convert_frame", "Variable": "__convert_variable", "VariableId": "__convert_variable_id",
              "WatchResult": "__convert_watch", "TracePointConfig": "__convert_tracepoint"}
